@@ -22,7 +22,7 @@ MISSING = re.compile(r'not found in tensor_name_to_qsv|min and max must be provi
 
 
 def plan(tier):
-  return {'n_cases': 700 if tier == 'quick' else 14000, 'shards': 16}
+  return {'n_cases': 700 if tier == 'quick' else 42000, 'shards': 16}
 
 
 def setup(ctx):
